@@ -390,6 +390,134 @@ def run_pipes(ctx, r, drv, hp):
             r.sample({'term': sx, 'mode': mode, 'implementation': res, 'model': mres, 'den': sorted(dens)})
 
 
+
+# ---------------------------------------------------------------------------- the LOCKSTEP part
+def ho_expected(kind, chan, n, i):
+    if chan == 'E':
+        return 'E:105'
+    if chan == 'S':
+        return 'S'
+    if kind == 'ST':
+        return ['V:1', 'V:2', 'V:'][i]
+    return 'V:1,2'
+
+
+def ho_monitor(inl, outl):
+    p = inl.split(' ')
+    kind, chan, n = p[3], p[4], int(p[5])
+    f = dict(x.split('=', 1) for x in outl.split(' ')[3:] if '=' in x)
+    if 'STUCK' in outl:
+        return 'stuck', 'no thread can run any more (schedule so far %s)' % p[6]
+    per = f['sig'].split('|') if f['sig'] != '-' else []
+    for i, x in enumerate(per):
+        cnt, res, by = x.split(':', 1)[0], x.split(':', 1)[1].rsplit(':', 1)[0], x.rsplit(':', 1)[1]
+        if cnt == '0':
+            return 'lost', 'consumer %d was never signalled although predecessor and consumer finished' % (i + 1)
+        if cnt != '1':
+            return 'multi', 'consumer %d was signalled %s times' % (i + 1, cnt)
+        if res != ho_expected(kind, chan, n, i):
+            return 'wrong', 'consumer %d got %s, the predecessor completed with %s' % (i + 1, res, ho_expected(kind, chan, n, i))
+        if by not in ('0', str(i + 1)):
+            return 'wrong_thread', 'consumer %d signalled from thread %s' % (i + 1, by)
+    if f.get('led') != '0':
+        return 'leak', '%s payload objects alive after the shared state and all operation states were destroyed' % f.get('led')
+    return None
+
+
+def jn_monitor(inl, outl):
+    p = inl.split(' ')
+    kind, n, comps = p[3], int(p[4]), p[5]
+    sched = [int(x) for x in p[6].split(',')] if p[6] != '-' else []
+    f = dict(x.split('=', 1) for x in outl.split(' ')[3:] if '=' in x)
+    if 'STUCK' in outl:
+        return 'stuck', 'no thread can run any more'
+    sites = [int(x) for x in f['sites'].split(',')] if f['sites'] != '-' else []
+    if f['n'] == '0':
+        return 'lost', 'all %d children completed, the receiver was never signalled' % n
+    if f['n'] != '1':
+        return 'multi', 'the receiver was signalled %s times' % f['n']
+    # who set the flag first / who decremented last, from the observed step sequence
+    first, last = None, None
+    for t, st in zip(sched, sites):
+        if st == 1 and first is None and comps[t] != 'V':
+            first = t
+        if st == 2:
+            last = t
+    if first is None:
+        want = 'V:' + ','.join(str(10 * i + 1) for i in range(n))
+    elif comps[first] == 'E':
+        want = 'E:%d' % (100 + first)
+    else:
+        want = 'S'
+    if f['r'] != want:
+        return 'wrong', 'children %s: receiver got %s, expected %s (first failing flag step by child %s)' % (comps, f['r'], want, first)
+    if f['by'] != str(last):
+        return 'wrong_thread', 'signalled by thread %s, the last decrement was by %s' % (f['by'], last)
+    if f.get('led') != '0':
+        return 'leak', '%s payload objects alive after the operation state was destroyed' % f.get('led')
+    return None
+
+
+def run_lock(ctx, r, drv, hl):
+    n = 3000 if ctx.tier == 'quick' else 40000
+    seeds = [ctx.seed] if ctx.tier == 'quick' else [ctx.seed + k for k in range(3)]
+    for sd in seeds:
+        rc, out = sh([hl, str(sd), str(n)], timeout=400 if ctx.tier == 'quick' else 3000)
+        lines = out.split('\n')
+        rep0 = {'harness': 'c03_lock', 'args': [sd, n]}
+        if rc != 0:
+            r.hits.append(Hit('tie', 'C03:lock_harness', 'lock-step harness failed rc=%d: %s' % (rc, out[-400:]), rep0))
+        ins = [x for x in lines if x.startswith('IN ')]
+        outs = [x for x in lines if x.startswith('OUT ')]
+        for d in [x for x in lines if x.startswith('DIED ')]:
+            p = d.split(' ')
+            r.hits.append(Hit('monitor', 'C03:%s:died:%s' % ('handoff' if p[1] == 'HO' else 'join', p[3]),
+                              'lock-step case %s of seed %d: the process running the real %s %s'
+                              % (p[2], sd, 'shared-state hand-off' if p[1] == 'HO' else 'when_all join',
+                                 {'abort': 'aborted', 'hang': 'hung', 'segv': 'crashed', 'stuck': 'got stuck'}.get(p[3], p[3])),
+                              dict(rep0, case_index=p[2])))
+        rc2, mout = sh([drv], input='\n'.join(ins) + '\n', timeout=1200)
+        mo = {}
+        for l in mout.split('\n'):
+            if l.startswith('OUT '):
+                q = l.split(' ', 3)
+                mo[(q[1], q[2])] = l
+        io = {}
+        for l in outs:
+            q = l.split(' ', 3)
+            io[(q[1], q[2])] = l
+        shown = 0
+        for i_ in ins:
+            q = i_.split(' ')
+            key = (q[1], q[2])
+            r.evaluations += 1
+            o_ = io.get(key)
+            rep = dict(rep0, case=i_, observed=o_)
+            if o_ is None:
+                continue      # died: reported above
+            sched = q[-1]
+            nthreads = len(set(sched.split(','))) if sched != '-' else 0
+            r.count('lock=%s/%s' % (q[1], q[3]))
+            if nthreads >= 2:
+                r.nontrivial(i_)
+            m = ho_monitor(i_, o_) if q[1] == 'HO' else jn_monitor(i_, o_)
+            if m:
+                r.hits.append(Hit('monitor', 'C03:%s:%s:%s' % ('handoff' if q[1] == 'HO' else 'join', q[3], m[0]),
+                                  '%s %s: %s [%s]' % ({'SP': 'split', 'ES': 'ensure_started', 'ST': 'split_tuple', 'WA': 'when_all',
+                                                       'WV': 'when_all_vector'}[q[3]], 'hand-off' if q[1] == 'HO' else 'join', m[1], i_), rep))
+            ml = mo.get(key)
+            if ml is None:
+                r.hits.append(Hit('tie', 'C03:model_driver', 'model produced no line for %s' % i_, rep))
+            elif ml.replace(' STUCK', '') == o_.replace(' STUCK', '') and 'STUCK' not in o_:
+                r.traces += 1
+            else:
+                r.hits.append(Hit('corr', 'C03:lock:correspondence',
+                                  'lock-step %s: implementation [%s] model [%s]' % (i_, o_, ml), dict(rep, model=ml)))
+            if shown < 2 and nthreads >= 3:
+                shown += 1
+                r.sample({'input_and_schedule': i_, 'observed': o_})
+
+
 def run(ctx):
     r = Result()
     r.rule = ('DIFF: pipeline terms (depth<=4 over 19 constructors, leaf channel value/error/stopped, leaf timing inline / '
@@ -401,5 +529,7 @@ def run(ctx):
     ctx.build_pika()
     drv = ctx.build_model('C03', 'ExtractC03.v', 'drv_c03.ml')
     hp = ctx.build_harness('c03_pipe', 'c03_pipe.cpp')
+    hl = ctx.build_harness('c03_lock', 'c03_lock.cpp')
     run_pipes(ctx, r, drv, hp)
+    run_lock(ctx, r, drv, hl)
     return r
